@@ -369,7 +369,7 @@ def check(prop, tier, seed, t0):
 
     level = plan['level']
     wall = time.time() - t0
-    trusted = sorted('model contract of library function %s (assumed, conformance-tested)' % l for l in lib_used)
+    trusted = sorted('model contract of library function %s (assumed: its symbolic facts are trusted; its concrete branch is compared with the real library by the translation cross-check of every function that uses it)' % l for l in lib_used)
     trusted += ['assumed contract (body not verified deductively; %s): %s' % (c.note or 'bounded conformance only', c.target) for c in reg.by_target.values() if c.assumed and (c.target in used or c.target in assumed_here)]
     trusted += ['z3 %s / cvc5 1.0.3 / z3 4.8.12 as back ends' % __import__('z3').get_version_string(), DROPPED]
     trusted += sorted(facts)
